@@ -382,6 +382,7 @@ func runC16(r *Run, verifDir string) {
 	c08K7AcceptLoop(r, "C16.H6")
 	r.Rule("C16.H7", "terminate closes the stream on every path (early exits only through a sound idempotence test): a connection whose context was cancelled by the grace period is still closed", 1)
 	terminateClosesStream(r, "C16.H7", "kmipserver")
+	r.Import("C16.H8", "nothing in the server parks on a channel operation that shutdown cannot release (every blocking select has the teardown case; no bare send/receive on a signalling channel)", 7, "C08", "C08.K6", func(k string) bool { return strings.HasPrefix(k, "kmipserver.") })
 }
 
 func c16H1(r *Run) {
